@@ -1,6 +1,5 @@
 package main
 
-import "strings"
 
 func init() {
 	register("C04",
@@ -40,6 +39,7 @@ func init() {
 			ruleCPDrain(c, s)
 			ruleSKFail(c)
 			ruleALBuf(c)
+			ruleALBump(c)
 		})
 
 	register("C13",
@@ -50,7 +50,9 @@ func init() {
 			ruleBTNonNull(c)
 			ruleBTPure(c)
 			ruleDstFresh(c)
-			ruleWAWR(c, func(ct *CodecType) bool { return strings.Contains(ct.Name, "union") }, 3)
+			ruleWAWR(c, nil, 27)
+			ruleWASpec(c, "W")
+			ruleWAIdx(c)
 			ruleEFU(c, "", 4)
 			rulePCArg(c, nil, 18, 3)
 			ruleBTWidth(c, true)
@@ -60,6 +62,7 @@ func init() {
 			rulePCNew(c)
 			ruleTSWide(c)
 			ruleTSNarrow(c)
+			ruleTSFloor(c)
 			ruleVarStd(c)
 			ruleOMValid(c)
 		})
@@ -80,6 +83,7 @@ func init() {
 			ruleBTWidth(c, true)
 			ruleLKShared(c)
 			ruleSGSeen(c)
+			ruleRegExact(c)
 		})
 }
 
@@ -91,6 +95,7 @@ func init() {
 			ruleJS(c)
 			ruleJSWhole(c)
 			ruleJSTotal(c)
+			ruleJSTagOptions(c)
 			c.Rule("ER-CHECK", erClauses["ER-CHECK"], 3)
 			schemaT := c.P.NamedType(c.P.Avro, "Schema")
 			for _, name := range []string{"UnmarshalJSONFrom"} {
@@ -126,6 +131,7 @@ func init() {
 			ruleENC(c)
 			ruleOMValid(c)
 			ruleALBuf(c)
+			ruleWAIdx(c)
 		})
 
 	register("C02",
@@ -149,6 +155,7 @@ func init() {
 			ruleBTPtrWrap(c)
 			ruleOMZero(c)
 			ruleOMValid(c)
+			ruleWAIdx(c)
 			if enc := findEncoder(c.P); enc.ctor != nil {
 				ruleENCHdr(c, enc.ctor)
 			}
